@@ -233,6 +233,13 @@ class FitSim(object):
         t = spec["type"]
         ref = self.ref
         kw = dict(cost_function=spec["cost"], minimizer=spec["minimizer"])
+        if spec.get("nodet"):
+            # the documented option add_determinant_cost=False: the cost function is handed over as an object
+            fcls = {"xy": K.XYFit, "indexed": K.IndexedFit, "hist": K.HistFit}[t]
+            ccls, ckw = fcls._STRING_TO_COST_FUNCTION[spec["cost"]]
+            kw["cost_function"] = ccls(**dict(ckw, add_determinant_cost=False))
+            ref.add_det = False
+            ref.cost_object = True
         if t == "xy":
             f, df, d3, names, dflt = userlib.XY_MODELS[spec["model"]]
             x = np.array(spec["x"], dtype=float)
